@@ -119,12 +119,52 @@ type verifNamedI8 int8
 type verifNamedU16 uint16
 type verifNamedI64 int64
 type verifNamedU64 uint64
+type verifNamedF32 float32
+type verifNamedF64 float64
+type verifNamedStr string
+type verifNamedBool bool
 
 // Named numeric types take the reflect path of toValue.
 func VerifH_C15_named_kinds() {
 	vm := New()
 	var want float64
-	switch verifChoose(4) {
+	switch verifChoose(8) {
+	case 4:
+		x := verifNondetFloat32()
+		var v Value
+		kind, _ := verifCatch(func() {
+			vm.Set("v", verifNamedF32(x))
+			v, _ = vm.Get("v")
+			f, _ := v.ToFloat()
+			verifAssert(sameF64(f, float64(x)), "a named float32 keeps its value")
+		})
+		verifCover("reached")
+		verifAssert(kind == verifNormal, "no Go panic escapes Set/Get/ToFloat for a named float32")
+		return
+	case 5:
+		x := verifNondetFloat64()
+		vm.Set("v", verifNamedF64(x))
+		v, _ := vm.Get("v")
+		f, _ := v.ToFloat()
+		verifCover("reached")
+		verifAssert(v.IsNumber() && sameF64(f, x), "a named float64 keeps its value")
+		return
+	case 6:
+		x := verifNondetString(verifChoose(3))
+		verifAssume(verifValidUTF8(x))
+		vm.Set("v", verifNamedStr(x))
+		v, _ := vm.Get("v")
+		verifCover("reached")
+		verifAssert(v.IsString() && v.String() == x, "a named string type arrives as a string")
+		return
+	case 7:
+		x := verifNondetBool()
+		vm.Set("v", verifNamedBool(x))
+		v, _ := vm.Get("v")
+		b, _ := v.ToBoolean()
+		verifCover("reached")
+		verifAssert(v.IsBoolean() && b == x, "a named bool type arrives as a boolean")
+		return
 	case 0:
 		x := verifNondetInt8()
 		vm.Set("v", verifNamedI8(x))
